@@ -97,7 +97,21 @@ func buildWorker() error {
 		os.WriteFile(filepath.Join(simDir, "go.sum"), b, 0o644)
 	}
 	tmp := workerBin + fmt.Sprintf(".%d", os.Getpid())
-	cmd := exec.Command(goBin, "test", "-c", "-tags", "verif", "-o", tmp, "./worker/")
+	args := []string{"test", "-c", "-tags", "verif", "-o", tmp}
+	if repo != "/repo" {
+		// another tree than /repo (a snapshot used by a background run): same module file with
+		// the replace directive pointing there, given to the go command with -modfile
+		if b, err := os.ReadFile(filepath.Join(simDir, "go.mod")); err == nil {
+			alt := strings.Replace(string(b), "=> /repo", "=> "+repo, 1)
+			os.WriteFile(filepath.Join(simDir, "go.alt.mod"), []byte(alt), 0o644)
+			if sum, err := os.ReadFile(filepath.Join(repo, "go.sum")); err == nil {
+				os.WriteFile(filepath.Join(simDir, "go.alt.sum"), sum, 0o644)
+			}
+			args = append(args, "-modfile=go.alt.mod")
+		}
+	}
+	args = append(args, "./worker/")
+	cmd := exec.Command(goBin, args...)
 	cmd.Dir = simDir
 	cmd.Env = goEnv()
 	out, err := cmd.CombinedOutput()
